@@ -313,7 +313,38 @@ func runC13(r *R) {
 			}
 		}
 		ok = ok && nInode > 0
-		r.Check(ok, "C13-R5", fn, "fs.locker().Lock() first", fn.Pos(), "rename-wide lock precedes every inode lock", "Rename locks inodes without first taking the filesystem-wide rename lock (two renames can deadlock)")
+		// root-first order: both ancestor chains are collected in full (the walk has no exit other than reaching the
+		// filesystem root) and duplicates are skipped only in the lock loop, which runs from the last index down
+		okWalk, okDedup, okDown := false, false, false
+		for _, c := range CallsMatching(fn, func(nm string, c *ssa.CallCommon) bool { return nm == "("+arv+".inode).Parent" }) {
+			if hdr := loopHeaderOf(c.Block()); hdr != nil {
+				okWalk = true
+				for b := range loopBody(hdr) {
+					for _, in := range b.Instrs {
+						if _, isL := in.(*ssa.Lookup); isL {
+							okWalk = false // de-duplicating while walking up cuts a chain short: an ancestor is then locked after its descendant
+						}
+					}
+				}
+			}
+		}
+		for _, c := range CallsMatching(fn, func(nm string, c *ssa.CallCommon) bool { return nm == "(sync.Locker).Lock" && !isLockerCall(c.Value) }) {
+			g, _ := Guard(fn, nil, c.(ssa.Instruction), FalseC("locked[n]", func(v ssa.Value) bool { _, isL := Resolve1(v).(*ssa.Lookup); return isL }))
+			okDedup = g
+			if hdr := loopHeaderOf(c.Block()); hdr != nil {
+				for _, in := range hdr.Instrs {
+					if p, isP := in.(*ssa.Phi); isP && p.Comment == "i" {
+						for _, e := range p.Edges {
+							if bo, isB := Strip(e).(*ssa.BinOp); isB && bo.Op == token.SUB {
+								okDown = true
+							}
+						}
+					}
+				}
+			}
+		}
+		ok = ok && okWalk && okDedup && okDown
+		r.Check(ok, "C13-R5", fn, "fs.locker().Lock() first", fn.Pos(), "rename-wide lock first; full ancestor chains, locked root-first with de-duplication in the lock loop", "Rename does not lock root-first: the filesystem-wide lock is missing, or an ancestor chain is cut short / de-duplicated while walking, so a common ancestor can be locked after a descendant — deadlock against parent-then-child operations (Sync, Flush, Readdir)")
 	}
 }
 
